@@ -26,7 +26,7 @@ PLAN = {
     "thorough": {"shards": 16, "shard_timeout": 3600, "case_timeout": 240, "configs": 1200, "envs": 6, "max_case_timeouts": 20},
 }
 THRESHOLDS = {
-    "quick": {"configurations_compared": 35, "child_runs": 140, "set:environments": 6, "repr:tree": 4, "repr:ge": 4, "repr:sge": 4, "repr:dsge": 4, "repr:stack": 4, "alg:gp": 5, "alg:rs": 3, "alg:hc": 3, "alg:opo": 3, "gp_crossover_heavy:dsge": 5, "tracker:bare": 5, "tracker:with-recorder": 5, "focus:tree": 3, "focus:ge": 3, "focus:sge": 3, "focus:dsge": 9, "focus:stack": 3, "ring_recursion_configurations": 5, "same_named_classes_configurations": 3, "child_runs_after_an_earlier_problem": 60, "evaluations_traced": 2000, "distinct_programs_traced": 300},
+    "quick": {"configurations_compared": 35, "child_runs": 140, "set:environments": 6, "repr:tree": 4, "repr:ge": 4, "repr:sge": 4, "repr:dsge": 4, "repr:stack": 4, "alg:gp": 5, "alg:rs": 3, "alg:hc": 3, "alg:opo": 3, "gp_crossover_heavy:dsge": 5, "tracker:bare": 5, "tracker:with-recorder": 5, "focus:tree": 3, "multi_objective_configurations": 8, "focus:ge": 3, "focus:sge": 3, "focus:dsge": 9, "focus:stack": 3, "ring_recursion_configurations": 5, "same_named_classes_configurations": 3, "child_runs_after_an_earlier_problem": 60, "evaluations_traced": 2000, "distinct_programs_traced": 300},
     "thorough": {"configurations_compared": 380, "child_runs": 2200, "set:environments": 30},
 }
 REPRS = ["tree", "ge", "sge", "dsge", "stack"]
@@ -71,6 +71,8 @@ def focus_cases(rng, descs, per_repr):
     twins = next(d for d in grammars.FIXED if d["name"] == "fx_twins")
     for r in ("stack", "stack", "stack", "tree"):  # classes that tie on every NAME-based order
         yield {"desc": twins, "repr": r, "decider": "maxdepth", "alg": rng.choice(["gp", "rs"]), "seed": rng.randrange(10**6), "budget": 40, "pop": 6, "extra_depth": 3, "step": "default", "tracker": "default", "envs": _envs(rng, 6), "focus": True, "twins": True}
+    for alg in ("rs", "hc", "gp", "opo") * 3:  # long multi-objective searches with coarse objectives: what the tracker keeps as its front
+        yield {"desc": descs[0], "repr": "tree", "decider": "maxdepth", "alg": alg, "seed": rng.randrange(10**6), "budget": rng.choice([300, 400, 500]), "pop": 6, "extra_depth": 3, "step": "default", "tracker": "default", "envs": _envs(rng, 6), "focus": True, "multi": True}
     ring = next(d for d in grammars.FIXED if d["name"] == "fx_ring")
     for r, dec in (("tree", "full"), ("tree", "pigrow"), ("ge", "progressive"), ("sge", "full"), ("tree", "progressive"), ("ge", "pigrow")):
         yield {"desc": ring, "repr": r, "decider": dec, "alg": rng.choice(["gp", "rs"]), "seed": rng.randrange(10**6), "budget": 40, "pop": 6, "extra_depth": rng.choice([3, 5]), "step": "default", "tracker": "default", "envs": _envs(rng, 6), "focus": True, "ring": True}
@@ -123,6 +125,8 @@ def run_case(case, rec):
     wit = {"grammar": case["desc"]["name"], "repr": case["repr"], "decider": case["decider"], "alg": case["alg"], "step": case.get("step"), "tracker": case.get("tracker"), "seed": case["seed"], "budget": case["budget"]}
     if case["alg"] == "gp" and case.get("step") == "cx":
         rec.count(f"gp_crossover_heavy:{case['repr']}")
+    if case.get("multi"):
+        rec.count("multi_objective_configurations")
     if case.get("focus"):
         rec.count(f"focus:{case['repr']}")
     if case.get("ring"):
